@@ -218,6 +218,10 @@ def _load_check(check_id):
 def run_shard(args):
     check_id, sub_name, shard, nshards, tier, seed, budget_s = args
     t0 = time.time()
+    if os.environ.get("VERIF_DEBUG_HANG"):
+        import faulthandler
+
+        faulthandler.dump_traceback_later(int(os.environ["VERIF_DEBUG_HANG"]), exit=True, file=open("/tmp/verif_hang_%d.txt" % os.getpid(), "w"))
     mod = _load_check(check_id)
     sub = [s for s in mod.SUBCHECKS if s.name == sub_name][0]
     rec = Rec()
@@ -580,7 +584,23 @@ def main(check_id, tier, replay=None, only=None):
             ctx = multiprocessing.get_context("fork")
             # one fresh fork of the driver per shard: a shard's process history is the driver's plain replays plus its own cases
             with ctx.Pool(nproc, maxtasksperchild=1) as pool:
-                results = list(pool.imap_unordered(run_shard, tasks, chunksize=1))
+                # Shards stop drawing cases when their budget is used up, but a single call into the code under test that does not return (a
+                # change that makes verde build an astronomically large array, say) cannot be interrupted from inside.  The driver therefore waits for
+                # the shards only so long (well beyond the sum of all budgets), keeps what has been reported by then and says which part is
+                # inconclusive: a time limit is never a violation, and never a reason not to finish.
+                deadline = time.time() + float(os.environ.get("VERIF_DEADLINE_S", max(600.0, 4.0 * budget_s * max(1.0, len(tasks) / float(nproc)))))
+                results = []
+                it = pool.imap_unordered(run_shard, tasks, chunksize=1)
+                for _ in tasks:
+                    try:
+                        results.append(it.next(timeout=max(1.0, deadline - time.time())))
+                    except multiprocessing.TimeoutError:
+                        done = {(r["sub"], r["shard"]) for r in results}
+                        late = sorted({t[1] for t in tasks if (t[1], t[2]) not in done})
+                        print("INCONCLUSIVE property=%s: %d of %d shards (sub-checks %s) did not finish within the time limit; a call into the code under test did not return" % (
+                            check_id, len(tasks) - len(results), len(tasks), ", ".join(late)))
+                        pool.terminate()
+                        break
         else:
             results = [run_shard(t) for t in tasks]
     else:
